@@ -116,11 +116,20 @@ func classifyMismatch(g *GT, where string) string {
 // written by the harness's spec writer.
 func readerFileCase(r *Run, s avro.Schema, d *Datum, ch *Choice, g *GT) {
 	nrec := 1 + r.Rng.Intn(6)
+	// one file in six is highly repetitive: hundreds of copies of one record in a block
+	// (a legal file whose blocks compress a hundredfold and more)
+	repetitive := r.Rng.Intn(6) == 0
+	if repetitive {
+		nrec = 300 + r.Rng.Intn(1500)
+		r.Count("file/repetitive")
+	}
+	// in half of the reads the callback follows the documented pattern: use the record, then close its bank
+	closeEach := r.Rng.Intn(2) == 0
 	var recs [][]byte
 	var datums []*Datum
 	for k := 0; k < nrec; k++ {
 		dk, chk := d, ch
-		if k > 0 {
+		if k > 0 && !repetitive {
 			dk = genDatum(r.Rng, s)
 			chk = genChoice(r.Rng, s, dk)
 		}
@@ -134,6 +143,9 @@ func readerFileCase(r *Run, s avro.Schema, d *Datum, ch *Choice, g *GT) {
 	}
 	for k := 0; k < nrec; {
 		m := 1 + r.Rng.Intn(nrec-k)
+		if repetitive && k == 0 {
+			m = nrec - r.Rng.Intn(3)
+		}
 		if r.Rng.Intn(5) == 0 {
 			m = 0 // an empty block is legal
 		}
@@ -145,9 +157,18 @@ func readerFileCase(r *Run, s avro.Schema, d *Datum, ch *Choice, g *GT) {
 		k += m
 	}
 	file := ct.Bytes(r.Rng.Intn(4) == 0)
-	desc := map[string]any{"kind": "file", "schema": schemaJSON(s), "codec": ct.Codec, "blocks": len(ct.Blocks), "records": nrec, "file": hexs(file), "target": g.Coq()}
+	desc := map[string]any{"kind": "file", "schema": schemaJSON(s), "codec": ct.Codec, "blocks": len(ct.Blocks), "records": nrec, "file": hexs(file), "target": g.Coq(),
+		"callback_closes_bank": closeEach}
+	allFit := true
+	var wants []reflect.Value
+	for _, dk := range datums {
+		w, fits := convDatum(s, g, dk)
+		allFit = allFit && fits
+		wants = append(wants, w)
+	}
 	var got []reflect.Value
 	var err error
+	earlyDiff := ""
 	func() {
 		defer func() {
 			if p := recover(); p != nil {
@@ -159,17 +180,20 @@ func readerFileCase(r *Run, s avro.Schema, d *Datum, ch *Choice, g *GT) {
 			v := reflect.New(g.RType()).Elem()
 			v.Set(reflect.NewAt(g.RType(), val).Elem())
 			got = append(got, v)
+			if closeEach {
+				// compare while the bank is open, then hand it back (a later record reuses it)
+				k := len(got) - 1
+				if allFit && k < len(wants) && earlyDiff == "" {
+					if eq, where := normEq(g, wants[k], v); !eq {
+						earlyDiff = fmt.Sprintf("record %d differs at %s", k, where)
+					}
+				}
+				rb.Close()
+			}
 			return nil
 		})
 	}()
 	r.Count("file/" + ct.Codec)
-	allFit := true
-	var wants []reflect.Value
-	for _, dk := range datums {
-		w, fits := convDatum(s, g, dk)
-		allFit = allFit && fits
-		wants = append(wants, w)
-	}
 	switch {
 	case isPanicErr(err):
 		r.Fail(-1, classifyFilePanic(s, g, ct), "ReadFile panics on a legal file: "+err.Error(), desc)
@@ -178,6 +202,12 @@ func readerFileCase(r *Run, s avro.Schema, d *Datum, ch *Choice, g *GT) {
 	case allFit:
 		if len(got) != len(wants) {
 			r.Fail(-1, "file-record-count", fmt.Sprintf("ReadFile delivered %d records, the file holds %d", len(got), len(wants)), desc)
+			return
+		}
+		if closeEach {
+			if earlyDiff != "" {
+				r.Fail(-1, "file-record-differs", earlyDiff+" (the callback closes each record's bank after use)", desc)
+			}
 			return
 		}
 		for k := range wants {
